@@ -54,27 +54,28 @@ def worlds(tier):
     for nm, cut in (("ac", AC), ("bc", BC)):
         W.append((f"paxos-2prop-retry1-cut-{nm}", "paxos",
                   dict(n=3, proposers=(0, 1), max_retries=1, max_ballot=3, mute=MUTE_D, cut=cut,
-                       max_moves=14 if q else None), 400_000))
+                       max_moves=14 if q else 20), 600_000))
     # two competing proposers, all links, bounded number of moves
     W.append(("paxos-2prop-all-links", "paxos",
-              dict(n=3, proposers=(0, 1), max_retries=0, max_ballot=2, mute=MUTE_D, max_moves=12 if q else None),
-              600_000))
+              dict(n=3, proposers=(0, 1), max_retries=0, max_ballot=2, mute=MUTE_D, max_moves=12 if q else 16),
+              800_000))
     if not q:
         W.append(("paxos-2prop-all-links-learners", "paxos",
-                  dict(n=3, proposers=(0, 1), max_retries=0, max_ballot=2, max_moves=15), 600_000))
+                  dict(n=3, proposers=(0, 1), max_retries=0, max_ballot=2, max_moves=13), 600_000))
         W.append(("paxos-2prop-retry1-all-links", "paxos",
-                  dict(n=3, proposers=(0, 1), max_retries=1, max_ballot=3, mute=MUTE_D, max_moves=15), 600_000))
+                  dict(n=3, proposers=(0, 1), max_retries=1, max_ballot=3, mute=MUTE_D, max_moves=14), 600_000))
         W.append(("paxos-2prop-retry2-cut-ac", "paxos",
-                  dict(n=3, proposers=(0, 1), max_retries=2, max_ballot=4, mute=MUTE_D, cut=AC, max_moves=18), 600_000))
+                  dict(n=3, proposers=(0, 1), max_retries=2, max_ballot=4, mute=MUTE_D, cut=AC, max_moves=17), 600_000))
+        W.append(("paxos-2prop-retry2-cut-bc", "paxos",
+                  dict(n=3, proposers=(0, 1), max_retries=2, max_ballot=4, mute=MUTE_D, cut=BC, max_moves=16), 600_000))
         W.append(("paxos-3prop-all-links", "paxos",
-                  dict(n=3, proposers=(0, 1, 2), max_retries=0, max_ballot=3, mute=MUTE_D, max_moves=12), 600_000))
+                  dict(n=3, proposers=(0, 1, 2), max_retries=0, max_ballot=3, mute=MUTE_D, max_moves=9), 600_000))
         W.append(("paxos-double-proposal-one-node", "paxos",
-                  dict(n=3, proposers=(0,), double=True, max_retries=1, max_ballot=4, max_moves=14), 600_000))
-        W.append(("paxos-live-1proposer-n5", "paxos", dict(n=5, proposers=(0,), max_retries=0, live=True,
-                                                           max_moves=None), 600_000))
-        W.append(("paxos-2prop-n4-cut", "paxos",
+                  dict(n=3, proposers=(0,), double=True, max_retries=1, max_ballot=4, max_moves=12), 600_000))
+        W.append(("paxos-live-1proposer-n4", "paxos", dict(n=4, proposers=(1,), max_retries=0, live=True), 600_000))
+        W.append(("paxos-2prop-n4-two-cuts", "paxos",
                   dict(n=4, proposers=(0, 1), max_retries=0, max_ballot=2, mute=MUTE_D,
-                       cut=AC + BC + (("a", "b"), ("b", "a")), max_moves=16), 600_000))
+                       cut=(("a", "d"), ("d", "a"), ("b", "c"), ("c", "b")), max_moves=15), 600_000))
     # ---- Multi-Paxos / Flexible Paxos ------------------------------------------------------------
     flexq = [(3, 2, 2)] if q else [(3, 2, 2), (3, 1, 3), (3, 3, 1), (4, 3, 2), (4, 2, 3)]
     kinds = [("multi", 3, None, None)] + [("flex", n, q1, q2) for n, q1, q2 in flexq]
@@ -87,14 +88,15 @@ def worlds(tier):
         W.append((f"{tag}-live-submit-to-leader", "log",
                   dict(base, presubmit=(), starters=(0,), late_cmds=("c1",), max_hb=3, bounded=True, live=True),
                   100_000))
-        # safety: one leader, two commands, any delivery order (reordering only)
+        # safety: one leader, two commands, any delivery order (reordering only, nothing lost or cut)
         W.append((f"{tag}-1leader-2cmds", "log",
                   dict(base, presubmit=((0, "c1"),), starters=(0,), late_cmds=("c2",), max_hb=0,
-                       cut=AC if n == 3 else (), max_moves=14 if q else 18), 300_000))
+                       max_moves=(10 if q else 13) if n == 3 else 10), 400_000))
         # safety: competing leaders (take-over), one command each
         W.append((f"{tag}-takeover", "log",
                   dict(base, presubmit=((0, "c1"), (n - 1, "c2")), starters=(0, n - 1), max_starts=2, max_hb=0,
-                       max_moves=10 if q else 13), 400_000))
+                       max_moves=10 if q else (11 if (kind == "multi" or (n, q1, q2) == (3, 2, 2)) else
+                                               (10 if n == 3 else 9))), 600_000))
     if not q:
         W.append(("multi-forward-event", "log",
                   dict(kind="multi", presubmit=(), starters=(0,), late_cmds=("c1",), forward=True, max_hb=3,
@@ -118,7 +120,7 @@ def worlds(tier):
         W.append(("le-randomized-desc", "le", dict(strategy="randomized", views="full", rand="desc", max_timers=6,
                                                    max_moves=9), 300_000))
     # ---- distributed lock -----------------------------------------------------------------------------
-    W.append(("dl-2req-1lock", "dl", dict(requesters=2, locks=1, max_ops=7 if q else 9), 300_000))
+    W.append(("dl-2req-1lock", "dl", dict(requesters=2, locks=1, max_ops=7 if q else 10), 300_000))
     W.append(("dl-3req-1lock", "dl", dict(requesters=3, locks=1, max_ops=5 if q else 7), 300_000))
     W.append(("dl-2req-2locks", "dl", dict(requesters=2, locks=2, max_ops=5 if q else 6), 300_000))
     if not q:
